@@ -5,7 +5,8 @@ spec:   spec/StaticRouteOps.tla   property layer (PVerdict) + design layer (Expe
         spec/MC_StaticRoute.tla   bounded instances, case export, file-system export
         spec/StaticRouteTrace.tla trace judge
 legs:   M  exhaustive TLC: remainders assembled from a traversal grammar of tokens x fallback
-           configurations; every (size, Range, If-Modified-Since) combination; the wrong designs must fail
+           configurations; every (size, Range, If-Modified-Since) combination; conditional requests under every
+           process time zone (DecisionIndependentOfZone); the wrong designs must fail
         A  every request of the small instances, with the outcome TLC computed for it, replayed on the
            real static route (raw WSGI and ASGI drivers, raw and percent-encoded spellings, a real
            temp tree built from the specification's file-system constant, open() audit)
@@ -20,6 +21,7 @@ import re
 import shutil
 import sys
 import threading
+import time
 
 META = {
     'property_id': 'C16',
@@ -30,12 +32,15 @@ META = {
     'level_text': 'The designed pipeline (spec/StaticRouteOps.tla) is model-checked exhaustively against the property '
                   'layer (containment of every path handed to open(), must-serve / may-serve, slice, Content-Range, '
                   'Content-Length, 416, 304) for all remainders of up to 4-5 grammar tokens x 3 fallback '
-                  'configurations and all (size<=6, first<=7, last<=7, suffix<=7) x If-Modified-Since cases; every '
+                  'configurations, all (size<=6, first<=7, last<=7, suffix<=7) x If-Modified-Since cases and all '
+                  'If-Modified-Since offsets (0, +-1 s, +-(UTC offset) +-1 s, far) under 8 process time zones; every '
                   'such request is replayed on the real route over WSGI and ASGI on a real directory tree with '
                   'sys.addaudithook recording which files were opened, and seeded random requests beyond the bound '
                   'are judged by TLC.',
     'level_note': 'Bounded: one fixed directory tree (files of sizes 0..6, a subdirectory, a sibling directory sharing '
-                  'the root\'s name prefix, outside files), no symlinks, POSIX only; GET only. Character classes are '
+                  'the root\'s name prefix, outside files), no symlinks, POSIX only; GET only. The process time zone is '
+                  'switched with TZ + time.tzset() around every request (zones whose offsets the C library does not '
+                  'reproduce are skipped and listed). Character classes are '
                   'represented by atoms and rendered by the harness (trusted: atom rendering, urllib unquote in the '
                   'drivers, os.path.realpath, re for Content-Range, email.utils.formatdate). Attempted opens count '
                   'as opens. Error-response bodies are not modelled. Interpreter-internal opens of .py/.pyc files '
@@ -45,7 +50,11 @@ META = {
 from engine import drivers
 from engine.core import MachineryError, digest
 
-T0 = 1000000000          # mtime of every file is T0 + 0.5 s: "equal" means equal after dropping the fraction
+# every file's mtime is EPOCHS[e] + 0.5 s (September 2001 / January 2002: both sides of a DST switch); an
+# If-Modified-Since delta of 0 means equal after dropping the fraction
+EPOCHS = (1000000000, 1010000000)
+T0 = EPOCHS[0]
+BADLM = -999999998
 PREFIXES = ('/static', '/s/t', '/static/')
 
 # ---------------------------------------------------------------------------------------------
@@ -116,12 +125,36 @@ class World:
         self.sibling = self.abspath(fs['sibling'])
         self.fbin_rel = '/'.join(self.segstr(s) for s in fs['fbin'][len(fs['root']):])
         self.apps = {}
+        self.nolm = fs['nolm']
+        self.files = [self.abspath(f['path']) for f in fs['files'] if f['size'] >= 0]
+        self.epoch = 0
+        self.tz0 = os.environ.get('TZ')
+        # process time zones: usable iff the C library really gives the offsets the specification lists
+        self.zones, self.zone_requests = {}, {}
+        for z, offs in fs['zones'].items():
+            os.environ['TZ'] = z
+            time.tzset()
+            if [time.localtime(e).tm_gmtoff for e in EPOCHS] == list(offs):
+                self.zones[z] = list(offs)
+        self.set_zone('UTC')
+        if 'UTC' not in self.zones or len([z for z, o in self.zones.items() if o[0]]) < 3:
+            raise MachineryError('fewer than three non-UTC process time zones are usable here: %r' % self.zones)
         self.loop = asyncio.new_event_loop()
         self.ignored = 0
         self.proto_errors = 0
         self.pyroots = tuple(os.path.realpath(p) + os.sep for p in
                              {sys.prefix, sys.base_prefix, os.environ.get('FALCON_ROOT', '/repo'),
                               os.path.dirname(os.path.dirname(os.path.abspath(__file__)))})
+
+    def set_zone(self, z):
+        os.environ['TZ'] = z
+        time.tzset()
+
+    def set_epoch(self, e):
+        if e != self.epoch:
+            for p in self.files:
+                os.utime(p, (EPOCHS[e] + 0.5, EPOCHS[e] + 0.5))
+            self.epoch = e
 
     def segstr(self, seg):
         return ''.join('.' if a == '.' else self.names[a] for a in seg)
@@ -136,6 +169,11 @@ class World:
         except Exception:
             pass
         shutil.rmtree(self.base, ignore_errors=True)
+        if self.tz0 is None:
+            os.environ.pop('TZ', None)
+        else:
+            os.environ['TZ'] = self.tz0
+        time.tzset()
 
     # ---- apps ------------------------------------------------------------------------------
     def app(self, iface, fb, dl, pv, dv, lifo=0):
@@ -198,7 +236,7 @@ class World:
         return b''.join(out), esc
 
     @staticmethod
-    def headers(c, rng):
+    def headers(c, rng, epoch=0):
         hs = []
         r = c['range']
         k = r['k']
@@ -207,13 +245,10 @@ class World:
                  'unit': rng.choice(UNIT_RANGES), 'bad': rng.choice(BAD_RANGES)}[k]
             hs.append((rng.choice(('Range', 'range', 'RANGE')), v))
         i = c['ims']
-        if i != 'none':
-            far = rng.random() < 0.3
-            v = {'earlier': lambda: email.utils.formatdate(T0 - (86400 * 400 if far else 1), usegmt=True),
-                 'equal': lambda: email.utils.formatdate(T0, usegmt=True),
-                 'later': lambda: email.utils.formatdate(T0 + (86400 * 4000 if far else 1), usegmt=True),
-                 'bad': lambda: rng.choice(BAD_DATES)}[i]()
-            hs.append(('If-Modified-Since', v))
+        if i['k'] == 'date':
+            hs.append(('If-Modified-Since', email.utils.formatdate(EPOCHS[epoch] + i['d'], usegmt=True)))
+        elif i['k'] == 'bad':
+            hs.append(('If-Modified-Since', rng.choice(BAD_DATES)))
         return hs
 
     # ---- one request, projected ---------------------------------------------------------------
@@ -237,12 +272,16 @@ class World:
         pre = PREFIXES[v['pv']].rstrip('/')
         target = pre.encode() + (b'' if c['head'] == 'bare' else b'/' + v['target'].encode('latin-1'))
         req = drivers.Req(target=target, headers=[tuple(h) for h in v['headers']])
+        self.set_epoch(v.get('epoch', 0))
+        self.set_zone(c['zone'])
+        self.zone_requests[c['zone']] = self.zone_requests.get(c['zone'], 0) + 1
         _AUDIT['log'] = log = []
         _AUDIT['on'] = True
         try:
             r = self.call(app, v['iface'], req, v['fw'])
         finally:
             _AUDIT['on'] = False
+            self.set_zone('UTC')
         if r.errors:
             self.proto_errors += 1
         opens = [x for x in (self.loc(p, c['fb']) for p in log if not isinstance(p, int)) if x]
@@ -259,15 +298,26 @@ class World:
         served = st in (200, 206, 304)
         clen = -1 if (not clh or not served) else \
             int(clh[0]) if len(clh) == 1 and re.match(r'^\d{1,9}$', clh[0]) else -3
+        lm = self.nolm
+        lmh = r.header_all('last-modified')
+        if served and lmh:
+            try:
+                dt = email.utils.parsedate_to_datetime(lmh[0])
+                lm = int(dt.timestamp()) - EPOCHS[self.epoch] if len(lmh) == 1 and dt.tzinfo is not None else BADLM
+                if abs(lm) > 10 ** 9:
+                    lm = BADLM
+            except Exception:
+                lm = BADLM
         return {'status': st, 'body': list(r.body) if served else [], 'cr': cr, 'clen': clen, 'opens': opens,
-                'exc': r.exc is not None}, r
+                'exc': r.exc is not None, 'lm': lm}, r
 
 
 def variant(world, c, rng, iface=None, mode=None):
     tb, esc = world.render(c['path'], mode or rng.choice(('raw', 'enc', 'mix')), rng)
-    return {'iface': iface or rng.choice(('wsgi', 'asgi')), 'dl': rng.randrange(2), 'pv': rng.randrange(len(PREFIXES)),
+    epoch = rng.randrange(2)
+    return {'epoch': epoch,'iface': iface or rng.choice(('wsgi', 'asgi')), 'dl': rng.randrange(2), 'pv': rng.randrange(len(PREFIXES)),
             'dv': rng.randrange(3), 'fw': rng.randrange(2), 'lifo': rng.randrange(2), 'target': tb.decode('latin-1'),
-            'headers': World.headers(c, rng), 'escaped': esc}
+            'headers': World.headers(c, rng, epoch), 'escaped': esc}
 
 
 def nontrivial(c, v):
@@ -354,26 +404,41 @@ def rand_num(rng):
     return rng.randint(0, 9) if t < 0.9 else rng.choice((10, 100, 65536, 10 ** 9))
 
 
-def rand_case(rng):
+def rand_case(rng, zones, zones_off):
     t = rng.random()
     k = 'none' if t < 0.35 else 'fl' if t < 0.60 else 'f' if t < 0.72 else 's' if t < 0.84 else \
         'unit' if t < 0.90 else 'bad'
     r = {'k': k, 'a': rand_num(rng) if k in ('fl', 'f', 's') else 0, 'b': rand_num(rng) if k == 'fl' else 0}
-    ims = 'none' if rng.random() < 0.6 else rng.choice(('earlier', 'equal', 'later', 'bad'))
+    zone = rng.choice(zones)
+    t = rng.random()
+    if t < 0.5:
+        ims = {'k': 'none', 'd': 0}
+    elif t < 0.56:
+        ims = {'k': 'bad', 'd': 0}
+    else:
+        off = abs(rng.choice(zones_off[zone]))
+        t = rng.random()
+        d = rng.choice((-1, 0, 1)) if t < 0.35 else \
+            rng.choice((-1, 1)) * (off + rng.choice((-1, 0, 1))) if t < 0.75 else \
+            rng.randint(-off - 2, off + 2) if t < 0.9 else rng.choice((-34560000, 345600000, -3600, 3600, 86400))
+        ims = {'k': 'date', 'd': d}
     fb = rng.choice(('none', 'none', 'in', 'out'))
     if rng.random() < 0.02:
-        return {'path': [], 'fb': fb, 'head': rng.choice(('under', 'bare')), 'range': r, 'ims': ims}
+        return {'path': [], 'fb': fb, 'head': rng.choice(('under', 'bare')), 'range': r, 'ims': ims, 'zone': zone}
     if k != 'none' and rng.random() < 0.6:          # range cases mostly hit a file
         path = list(rng.choice(IN_NAMES[:5])) if rng.random() < 0.8 else ['sub', '/', 'g2']
     else:
         path = rand_path(rng)
-    return {'path': path, 'fb': fb, 'head': 'under', 'range': r, 'ims': ims}
+    if ims['k'] != 'none' and rng.random() < 0.5:   # conditional cases mostly hit a file
+        path = list(rng.choice(IN_NAMES[:5]))
+    return {'path': path, 'fb': fb, 'head': 'under', 'range': r, 'ims': ims, 'zone': zone}
 
 
 # ---------------------------------------------------------------------------------------------
 
 def signature(clause, c):
-    return {'clause': clause, 'fb': c['fb'], 'head': c['head'], 'range_kind': c['range']['k'], 'ims': c['ims'],
+    return {'clause': clause, 'fb': c['fb'], 'head': c['head'], 'range_kind': c['range']['k'], 'ims': c['ims']['k'],
+            'ims_sign': (c['ims']['d'] > 0) - (c['ims']['d'] < 0), 'zone': c['zone'],
             'path_atoms': sorted(set(a for a in c['path'] if a in ('/', '.', 'sp', 'bsl', 'bad', 'u', 'L', 'M')))}
 
 
@@ -390,7 +455,7 @@ def judge_and_report(ctx, items, origin):
         k = max(0, min(len(obs) - 1, int(at or 1) - 1))
         case = {'c': c, 'variant': v[k] if isinstance(v, list) else v, 'obs': obs[k], 'origin': origin}
         what = '%s: request %s -> status %s opens %s (judged by StaticRouteTrace)' % (
-            origin, {kk: c[kk] for kk in ('path', 'fb', 'head', 'range', 'ims')}, obs[k]['status'], obs[k]['opens'])
+            origin, {kk: c[kk] for kk in ('path', 'fb', 'head', 'range', 'ims', 'zone')}, obs[k]['status'], obs[k]['opens'])
         if clause.startswith('P:'):
             ctx.violation(clause, case, what, signature=signature(clause, c))
         else:
@@ -398,15 +463,20 @@ def judge_and_report(ctx, items, origin):
 
 
 def run(ctx):
-    ctx.rule = ('case = (remainder as atoms, fallback configuration, prefix spelling, Range, If-Modified-Since) x concrete '
-                'variant (interface, percent-encoding, prefix, directory spelling, downloadable, file_wrapper, an earlier '
+    ctx.rule = ('case = (remainder as atoms, fallback configuration, prefix spelling, Range, If-Modified-Since offset from '
+                'the modification time, process time zone) x concrete '
+                'variant (interface, percent-encoding, prefix, directory spelling, downloadable, file_wrapper, modification '
+                'epoch, an earlier '
                 'registration of the same prefix); '
                 'non-trivial iff the path contains a dot segment, an escape or a disallowed character, or a Range '
                 'header is present; distinct by hash of (case, target bytes, headers, interface)')
     ctx.trusted_base = ['TLC 1.8 evaluation of spec/StaticRouteOps.tla', 'engine/drivers.py raw WSGI/ASGI drivers',
                         'atom rendering in checks/c16.py', 'os.path.realpath', 're (Content-Range, Content-Length)',
-                        'email.utils.formatdate', 'sys.addaudithook open events']
-    ctx.assumptions = ['POSIX; no symlinks in the tree; files do not change during the run',
+                        'email.utils.formatdate / parsedate_to_datetime', 'sys.addaudithook open events',
+                        'TZ + time.tzset() of the C library']
+    ctx.assumptions = ['POSIX; no symlinks in the tree; file contents do not change during the run',
+                       'a Last-Modified header, when sent with 200/206/304, must be the modification time truncated to '
+                       'seconds (absent is admitted by the property layer, expected present)',
                        'an attempted open() of a path counts as opening it',
                        'malformed Range / If-Modified-Since: 400 or serving as if absent are both admitted (400 expected)',
                        'zero-length file with a byte range: 200 with empty body or 416 are both admitted (200 expected)',
@@ -441,6 +511,12 @@ def run(ctx):
         ctx.require_coverage(r, range_actions)
         res['range'] = r
 
+    def m_cond():
+        r = ctx.tlc('MC_StaticRoute', 'MC_StaticRouteCond.cfg', coverage=True, workers=4, timeout=600)
+        ctx.require_coverage(r, ['Submit', 'OpenRequested', 'OpenFallback', 'OpenMiss', 'BadDate', 'NotModified304',
+                                 'Modified', 'RangeFull', 'RangePartial', 'RangeBad'])
+        res['cond'] = r
+
     def m_wide():
         if q:
             r = ctx.tlc('MC_StaticRoute', 'MC_StaticRouteWide3.cfg', coverage=True, workers=6, timeout=600)
@@ -462,7 +538,7 @@ def run(ctx):
         # (the final '..' test still stops it)
         want = {'MC_StaticRouteBadAbs.cfg': True, 'MC_StaticRouteBadDots.cfg': True, 'MC_StaticRouteBadFinal.cfg': True,
                 'MC_StaticRouteDepth.cfg': False, 'MC_StaticRouteBadLen.cfg': True, 'MC_StaticRouteBadUnsat.cfg': True,
-                'MC_StaticRouteBadIms.cfg': True}
+                'MC_StaticRouteBadIms.cfg': True, 'MC_StaticRouteBadZone.cfg': True}
         out = {}
         for cfg, must_fail in want.items():
             r = ctx.tlc('MC_StaticRoute', cfg, workers=2, timeout=600, must_hold=False, count=False)
@@ -473,9 +549,8 @@ def run(ctx):
         ctx.extra['wrong_design_runs'] = out
 
     background(m_range)
+    background(m_cond)
     background(m_wide)
-    background(m_more)
-    background(m_wrong)
 
     def wait(key):
         while key not in res:
@@ -489,6 +564,8 @@ def run(ctx):
     world = None
     try:
         r = wait('range')
+        background(m_more)           # off the critical path: started once the first export is in
+        background(m_wrong)
         fs = [j for j in r.json if j.get('t') == 'fs']
         if not fs:
             raise MachineryError('the model did not export its file system')
@@ -502,6 +579,8 @@ def run(ctx):
             n = 0
             for i, j in enumerate(cases):
                 c, e = j['c'], j['e']
+                if c['zone'] not in world.zones:
+                    continue                      # not expressible here: the C library does not know the zone
                 plans = [('wsgi', 'raw'), ('wsgi', 'enc' if i % 2 else 'mix')]
                 if i % asgi_every == 0:
                     plans.append(('asgi', ('raw', 'enc', 'mix')[(i // asgi_every) % 3]))
@@ -526,19 +605,24 @@ def run(ctx):
         range_cases = list({digest(j['c']): j for j in r.json if j.get('t') == 'case'}.values())
         replay_cases(range_cases, ctx.pick(4, 1), 'range/ims')
         ctx.samples = ctx.samples[:2]            # leave room for a path sample and a random one
+        rc = wait('cond')
+        cond_cases = list({digest(j['c']): j for j in rc.json if j.get('t') == 'case'}.values())
+        replay_cases(cond_cases, ctx.pick(2, 1), 'conditional x zones')
         rw = wait('wide')
         path_cases = list({digest(j['c']): j for j in rw.json if j.get('t') == 'case'}.values())
         ctx.progress('wide model done (%d states, %d cases)' % (rw.distinct, len(path_cases)))
         replay_cases(path_cases, ctx.pick(6, 5), 'paths')
         ctx.samples = ctx.samples[:4]
-        ctx.extra['spec_cases_replayed'] = {'range_ims': len(range_cases), 'paths': len(path_cases)}
+        ctx.extra['spec_cases_replayed'] = {'range_ims': len(range_cases), 'conditional_x_zones': len(cond_cases),
+                                            'paths': len(path_cases)}
         judge_and_report(ctx, mismatches, 'leg A (spec case differs on the code)')
 
         # ---- leg B: random requests beyond the bound, judged by TLC ----------------------------------
         nb = ctx.pick(14000, 220000)
         groups = {}
+        zone_names = sorted(world.zones)
         for i in range(nb):
-            c = rand_case(rng)
+            c = rand_case(rng, zone_names, world.zones)
             v = variant(world, c, rng, 'asgi' if rng.random() < ctx.pick(0.12, 0.2) else 'wsgi')
             o, _ = world.observe(c, v)
             stats[v['iface']] += 1
@@ -554,6 +638,9 @@ def run(ctx):
         judge_and_report(ctx, list(groups.values()), 'leg B')
         ctx.extra['leg_b'] = {'requests': nb, 'distinct_abstract_cases': len(groups)}
         ctx.extra['requests_by_interface'] = stats
+        ctx.extra['requests_by_process_time_zone'] = dict(sorted(world.zone_requests.items()))
+        ctx.extra['time_zone_offsets_s'] = world.zones
+        ctx.extra['time_zones_not_usable'] = sorted(set(fs[0]['zones']) - set(world.zones))
         ctx.extra['ignored_interpreter_opens'] = world.ignored
         ctx.extra['protocol_monitor_errors'] = world.proto_errors
         ctx.note('observed, not a property violation: the static route leaves the file handle open on 304 and 400 '
